@@ -12,10 +12,10 @@ var (
 	kindPool    = []string{"user", "org", "device"}
 	clauseKinds = []string{"", "", "user", "org", "device", "other"}
 	keyPool     = []string{"a", "b", "c", "u1", "u2", "k/1", "ключ", "key.with.dots", strings.Repeat("L", 150),
-		"ctl\x01\x1b\x7f", "q\"uo\\te\n\t", "tag\U000E0001\u2028", "nul\x00mid"}
+		"ctl\x01\x1b\x7f", "q\"uo\\te\n\t", "tag\U000E0001\u2028", "nul\x00mid", "100%-off %d %s %v%!"}
 	attrNames   = []string{"a", "b", "email", "n", "s", "arr", "obj", "/a~b", "a/b", "d", "v"}
-	segKeyPool  = []string{"s0", "s1", "s2", "s3", "s4", "s5"}
-	flagKeyPool = []string{"f0", "f1", "f2", "f3", "f4", "f5", "f6"}
+	segKeyPool  = []string{"s0", "s1", "beta-10%-of-users%s", "s3", "s4", "s5", "s2"}
+	flagKeyPool = []string{"f0", "checkout-50%-discount%d", "f2", "f3", "f4", "f5", "f6", "f1"}
 	saltPool    = []string{"", "salt", "s2", strings.Repeat("S", 120)}
 	dateStrs    = []string{"2020-01-01T00:00:00Z", "2020-01-01T00:00:00.5Z", "2019-12-31T23:00:00-01:00", "1970-01-01T00:00:00Z", "0001-01-01T00:00:00Z", "9999-12-31T23:59:59.999999999Z", "2020-02-31T00:00:00Z", "2020-01-01t00:00:00z", "2020-01-01T0:00:00Z", "2020-01-01", "not a date", "2020-01-01T00:00:00+99:59",
 		" 2020-01-01T00:00:00Z", "2020-01-01T00:00:00+00:00\n", "\t2019-12-31T23:00:00-01:00 ", "2020-01-01T00:00:00Z "}
@@ -139,6 +139,13 @@ func (g *gen) sctx(kind string) WSCtx {
 	if kind == "user" && r.chance(1, 4) {
 		c.Sec = sp(pick(r, []string{"sec", "", "x.y"}))
 	}
+	// old-schema user JSON is the only way to obtain a valid context whose key is the empty string
+	if kind == "user" && r.chance(1, 12) {
+		c.Legacy = true
+		if r.chance(2, 3) {
+			c.Key = ""
+		}
+	}
 	return c
 }
 
@@ -181,7 +188,7 @@ func (g *gen) ref(withKind bool) WRef {
 		case 0:
 			return mkRef("", "")
 		case 1:
-			return mkRef("ref", pick(r, []string{"/", "//", "/a//b", "/a~2", "/a~", "/a/"}))
+			return mkRef("ref", pick(r, []string{"/", "//", "/a//b", "/a~2", "/a~", "/a/", "/usage%d//pct%s"}))
 		case 2:
 			return mkRef("ref", "")
 		default:
@@ -433,7 +440,12 @@ func (g *gen) flag(key string, prereqKeys, segKeys []string) WFlag {
 	}
 	if r.chance(g.p.PTargets, 100) {
 		for i, n := 0, r.intn(4); i < n; i++ {
-			f.Targets = append(f.Targets, WTarget{Vals: g.keysBiased(3), V: idx()})
+			t := WTarget{Vals: g.keysBiased(3), V: idx()}
+			if r.chance(1, 6) {
+				// the legacy list normally has no context kind, but the schema and the evaluator allow one
+				t.CK = pick(r, []string{"user", "org", "device", "other"})
+			}
+			f.Targets = append(f.Targets, t)
 		}
 		if r.chance(3, 5) {
 			for i, n := 0, 1+r.intn(4); i < n; i++ {
